@@ -24,7 +24,8 @@ Record case := {
 
 (* what the template saw: sorted context keys (without globals), id, data tag, request_info.uri *)
 Definition tcobs := (list str * option str * option str * str)%type.
-Record hobs := { h_calls : list call; h_class : N; h_tc : option tcobs }.
+(* h_served: which file was served (its path), for a content result *)
+Record hobs := { h_calls : list call; h_class : N; h_tc : option tcobs; h_served : option str }.
 Record pobs := { p_norm : str; p_ctx : ctx; p_handle : option hobs }.
 Record obs := { o_init : bool; o_ctx : ctx; o_can : bool; o_handle : option hobs; o_parity : option pobs;
                 o_decoded : str (* unquote of the path part; correspondence only *) }.
@@ -61,13 +62,19 @@ Definition fs_of (k : case) (p : str) : fsr :=
   if existsb (eqb_str p) (k_files k) then FsOpened [] else FsENOENT.
 
 Definition run_handle (k : case) (r : rp) (x : ctx) (req_uri : str) : hobs :=
-  let '(log, _, res) := handle false (transform_of k) (table_find_system (k_fs k))
+  let '(log, opened, res) := handle false (transform_of k) (table_find_system (k_fs k))
                                (table_get_data (k_gdraise k) (k_gdraise_base k) (k_gdempty k)) (fs_of k) (k_cfg k) r x in
   {| h_calls := log; h_class := class_of res;
      h_tc := match res with
              | RContent _ (Some tc) => Some (keys_of tc, t_id tc, t_data tc, req_uri)
              | _ => None
-             end |}.
+             end;
+     h_served := match res, opened with RContent _ _, p :: _ => Some p | _, _ => None end |}.
+
+(* The context object that prepare_context returns is opaque in the public API (it is only handed back to can_handle and
+   handle).  Observed is the decision (can_handle) - the extracted lookup value shows in the data-source calls, the extra
+   path in which file is served. *)
+Definition proj_ctx (x : ctx) : ctx := {| matches := matches x; raw_value := None; extra_path := None |}.
 
 Definition handle_if (k : case) (r : rp) (x : ctx) (req_uri : str) : option hobs :=
   if matches x then Some (run_handle k r x req_uri) else None.
@@ -82,7 +89,7 @@ Definition run_model (k : case) : obs :=
   | Ok r =>
       let u := if k_tftp k then rewrite_filename (k_old2f k) (k_uri k) else k_uri k in
       let x := prepare_context (k_cfg k) r u in
-      {| o_init := true; o_ctx := x; o_can := matches x; o_handle := handle_if k r x u;
+      {| o_init := true; o_ctx := proj_ctx x; o_can := matches x; o_handle := handle_if k r x u;
          o_parity :=
            if k_tftp k then
              match handler_init false (k_cfg k) with
@@ -90,7 +97,7 @@ Definition run_model (k : case) : obs :=
              | Ok rh =>
                  let nf := norm_name (k_uri k) in
                  let xh := http_prepare (k_cfg k) rh nf in
-                 Some {| p_norm := nf; p_ctx := xh; p_handle := handle_if k rh xh nf |}
+                 Some {| p_norm := nf; p_ctx := proj_ctx xh; p_handle := handle_if k rh xh nf |}
              end
            else None;
          o_decoded := uri_path (k_uri k) |}
@@ -102,6 +109,7 @@ Definition tcobs_eqb (a b : tcobs) : bool :=
   list_eqb eqb_str ka kb && opt_str_eqb ia ib && opt_str_eqb da db && eqb_str ua ub.
 Definition hobs_eqb (a b : hobs) : bool :=
   list_eqb call_eqb (h_calls a) (h_calls b) && (h_class a =? h_class b) &&
+  opt_str_eqb (h_served a) (h_served b) &&
   match h_tc a, h_tc b with
   | None, None => true
   | Some x, Some y => tcobs_eqb x y
@@ -120,7 +128,7 @@ Definition holds (k : case) (o : obs) : list string :=
       if negb (o_init o) then ["init_accepts"%string] else
       let eff := if k_tftp k then norm_name (k_uri k) else k_uri k in
       let sx := spec_ctx (k_cfg k) r eff in
-      (if ctx_eqb (o_ctx o) sx then [] else ["match_spec"%string]) ++
+      (if ctx_eqb (o_ctx o) (proj_ctx sx) then [] else ["match_spec"%string]) ++
       (if Bool.eqb (o_can o) (matches (o_ctx o)) then [] else ["can_handle"%string]) ++
       (if ohobs_eqb (o_handle o) (handle_if k r sx eff) then [] else ["lookup_exact"%string]) ++
       (if k_tftp k then
@@ -152,12 +160,13 @@ Definition asTc (x : sx) : option (option tcobs) :=
       obind (asStr u) (fun u => Some (Some (ks, i, d, u))))))
   | _ => None
   end.
-Definition sxH (h : hobs) : sx := L [L (map sxCall (h_calls h)); sxN (h_class h); sxTc (h_tc h)].
+Definition sxH (h : hobs) : sx :=
+  L [L (map sxCall (h_calls h)); sxN (h_class h); sxTc (h_tc h); sxOpt (h_served h)].
 Definition asH (x : sx) : option hobs :=
   match x with
-  | L [L cs; cl; tc] =>
+  | L [L cs; cl; tc; sv] =>
       obind (omap asCall cs) (fun cs => obind (asN cl) (fun cl => obind (asTc tc) (fun tc =>
-      Some {| h_calls := cs; h_class := cl; h_tc := tc |})))
+      obind (asOpt sv) (fun sv => Some {| h_calls := cs; h_class := cl; h_tc := tc; h_served := sv |}))))
   | _ => None
   end.
 Definition sxOH (h : option hobs) : sx := match h with None => L [] | Some h => L [sxH h] end.
@@ -223,5 +232,12 @@ Definition entry (x : sx) : sx :=
   | None => sxS "bad-case"
   | Some (k, io) =>
       let m := run_model k in
-      L [ sxObs m; L (map sxS (holds k m)); L (map sxS (holds k io)); L []; sxBool (validb k) ]
+      (* 6th item: the lookup value the matching rule extracts (the harness asks the real transformation chain for
+         exactly that value when the chain is an oracle table) *)
+      let eff := if k_tftp k then norm_name (k_uri k) else k_uri k in
+      let raws := match handler_init (k_tftp k) (k_cfg k) with
+                  | Ok r => match raw_value (spec_ctx (k_cfg k) r eff) with Some v => [v] | None => [] end
+                  | Exc _ => []
+                  end in
+      L [ sxObs m; L (map sxS (holds k m)); L (map sxS (holds k io)); L []; sxBool (validb k); L (map sxStr raws) ]
   end.
